@@ -101,6 +101,8 @@ FIELD_NAMES = {
             "sequence", "quality", "extra"],
     "fastq": ["name", "sequence", "quality"],
     "fasta2": ["name", "sequence"],
+    "bam": ["chromosome", "name", "flag", "position", "mapq", "cigar_op", "cigar_length", "sequence", "quality"],
+    "gtf": ["chromosome", "source", "feature_type", "start", "stop", "score", "strand", "phase", "atributes"],
 }
 
 
@@ -255,6 +257,11 @@ def _spec_len(prog, lens):
         return sum(lens[:prog["catall"]])
     if "touch" in prog:
         return _spec_len(prog["touch"], lens)
+    if "get" in prog:
+        return _spec_len(prog["get"], lens)
+    if "seq" in prog:
+        a, b = (_spec_len(q, lens) for q in prog["seq"])
+        return None if a is None else b
     if "rep" in prog:
         return _spec_len(prog["rep"], lens)
     n = _spec_len(prog["sel"], lens)
@@ -274,6 +281,18 @@ def _rand_prog(rng, lens, depth, fmt):
         return p
     r = rng.random()
     rep = FORMATS[fmt][3]
+    if r > 0.94:
+        # read (cache) some columns of the lazy table, then go on with the same table
+        p = _rand_prog(rng, lens, depth - 1, fmt)
+        return {"get": p, "fs": sorted(rng.sample(range(FORMATS[fmt][2]), rng.choice([1, 1, 2])))}
+    if r > 0.88:
+        # write a child of a (shared) table first, then go on with a program over the same tables
+        k = rng.randrange(len(lens))
+        n = lens[k]
+        child = {"sel": {"t": k}, "ix": rng.choice([{"slice": [1, None, 1]}, {"slice": [min(2, n), None, 1]}, {"slice": [1, None, 2]},
+                                                   {"slice": [None, None, -1]}, {"ints": [n - 1, 0]}])}
+        side = {"touch": child} if rng.random() < 0.8 else {"touch": {"sel": child, "ix": {"slice": [None, 2, 1]}}}
+        return {"seq": [side, _rand_prog(rng, lens, depth - 1, fmt)]}
     if rep and r < 0.07:
         # replace a subset of fields INSIDE the program (operands of a later concatenate get different replaced-field sets)
         p = _rand_prog(rng, lens, depth - 1, fmt)
@@ -334,13 +353,33 @@ def make_case(rng, fmt, depth, replace_p=0.3, eol=None):
     return _set_op(c)
 
 
+def _equal_size_case(rng, fmt, eol, n):
+    """a one-table case whose n records all have the same byte length (rejection sampling on the record generators)"""
+    base = make_case(rng, fmt, 0, 0, eol)
+    first = base["recs"][0][0]
+    recs = [first]
+    tries = 0
+    while len(recs) < n and tries < 4000:
+        tries += 1
+        cand = make_case(rng, fmt, 0, 0, eol)["recs"][0][0]
+        if len(cand["raw"]) == len(first["raw"]) and (fmt not in ("vcf", "vcfg") or cand["raw"].count("\t") == first["raw"].count("\t")):
+            recs.append(cand)
+    while len(recs) < n:
+        recs.append(dict(first))
+    base["recs"] = [recs] + base["recs"][1:]
+    base["prog"] = {"t": 0}
+    return base
+
+
 def _has_cat(p):
     """field-level comparison applies: the program concatenates or replaces fields somewhere"""
     if "t" in p:
         return "chunk" in p
     if "cat" in p or "catall" in p or "rep" in p:
         return True
-    return _has_cat(p.get("touch") or p.get("sel"))
+    if "seq" in p:
+        return _has_cat(p["seq"][1])
+    return _has_cat(p.get("touch") or p.get("get") or p.get("sel"))
 
 
 def _has_rep(p):
@@ -350,7 +389,9 @@ def _has_rep(p):
         return True
     if "cat" in p:
         return any(_has_rep(q) for q in p["cat"])
-    return _has_rep(p.get("touch") or p.get("sel"))
+    if "seq" in p:
+        return any(_has_rep(q) for q in p["seq"])
+    return _has_rep(p.get("touch") or p.get("get") or p.get("sel"))
 
 
 def _set_op(c):
@@ -426,6 +467,50 @@ def cases(tier, rng):
                     yield _set_op(dict(base, prog={"cat": [a, b]}))
                     yield _set_op(dict(base, prog={"cat": [a, {"sel": d0, "ix": {"slice": [3, 5, 1]}}]}))
                     yield _set_op(dict(base, prog={"sel": {"cat": [{"t": 0}, b]}, "ix": {"slice": [None, None, -2]}}))
+    # 0c. classes that only show on particular byte layouts / object sharing (every format, LF and CRLF):
+    #   (a) integer-list REORDERINGS of neighbouring records keeping the first and the last in place, and REPETITIONS over
+    #       equal-sized records whose lengths add up to the spanned range (the selection "looks like" one contiguous block);
+    #   (b) a slice child with non-zero offset is WRITTEN, afterwards the PARENT (same object) is written with a replaced field,
+    #       re-selected, or concatenated;
+    #   (c) columns are READ (cached) before a concatenation over non-canonical text.
+    for fmt in fmts:
+        for eol in (["\n"] if fmt == "bam" else ["\n", "\r\n"]):
+            base = _equal_size_case(rng, fmt, eol, 6)
+            d0 = {"t": 0}
+            n0 = len(base["recs"][0])
+            perms = [[0, 2, 1, 3], [0, 2, 1, 3, 4], [1, 3, 2, 4], [0, 3, 1, 2, 4], [0, 1, 3, 2, 4, 5], [0, 4, 2, 3, 1, 5], [2, 4, 3, 5],
+                     [0, 0, 2], [1, 1, 3], [0, 1, 1, 3], [2, 2, 3, 5], [0, 0, 0, 3], [3, 3, 5], [0, 2, 2, 3, 3, 5][:5]]
+            for L in perms:
+                one = {"sel": d0, "ix": {"ints": L}}
+                yield _set_op(dict(base, prog=one))
+                if rng.random() < 0.5:
+                    yield _set_op(dict(base, prog={"sel": {"touch": one}, "ix": {"slice": [None, None, -1]}}))
+                if fmt != "bam" and rng.random() < 0.5:
+                    yield _set_op(dict(base, prog={"cat": [one, {"sel": d0, "ix": {"slice": [1, 3, 1]}}]}))
+                if rng.random() < 0.4:
+                    yield _set_op(dict(base, prog={"sel": {"sel": d0, "ix": {"slice": [None, None, 1]}}, "ix": {"ints": L}}))
+            rep = FORMATS[fmt][3]
+            children = [{"slice": [2, 5, 1]}, {"slice": [1, None, 2]}, {"slice": [1, None, 1]}, {"slice": [3, 0, -1]}, {"ints": [4, 2]}]
+            for ch in children:
+                side = {"touch": {"sel": d0, "ix": ch}}
+                mains = [d0, {"sel": d0, "ix": {"mask": [i % 2 == 0 for i in range(n0)]}}, {"sel": d0, "ix": {"ints": [n0 - 1, 1, 0]}},
+                         {"sel": {"sel": d0, "ix": ch}, "ix": {"slice": [None, None, -1]}}]
+                if fmt != "bam":
+                    mains.append({"cat": [{"sel": d0, "ix": ch}, d0]})
+                for m in mains:
+                    yield _set_op(dict(base, prog={"seq": [side, m]}))
+                    nm = _spec_len(m, [len(t) for t in base["recs"]])
+                    if rep and nm:
+                        k = rng.choice(sorted(rep))
+                        yield _set_op(dict(base, prog={"seq": [side, m]}, repl=[[k, rep[k], _new_values(rng, rep[k], nm)]]))
+            nf = FORMATS[fmt][2]
+            if fmt != "bam":
+                for fs in ([1 % nf], [0], list(range(nf))[:3], [nf - 1]):
+                    g0 = {"get": d0, "fs": fs}
+                    yield _set_op(dict(base, prog={"cat": [{"sel": g0, "ix": {"mask": [i % 3 != 1 for i in range(n0)]}}, g0]}))
+                    yield _set_op(dict(base, prog={"cat": [d0, {"get": {"sel": d0, "ix": {"slice": [1, 4, 1]}}, "fs": fs}]}))
+                    yield _set_op(dict(base, prog={"seq": [g0, {"cat": [{"sel": d0, "ix": {"ints": [2, 0]}}, d0]}]}))
+                    yield _set_op(dict(base, prog={"sel": {"cat": [g0, {"get": {"t": 0, "chunk": 60}, "fs": fs}]}, "ix": {"slice": [1, None, 2]}}))
     # 1. random programs
     for fmt in fmts:
         m = per if fmt not in ("gtf", "bam") else per // 3
@@ -456,6 +541,10 @@ def _steps(p):
         return 1
     if "touch" in p:
         return 1 + _steps(p["touch"])
+    if "get" in p:
+        return 1 + _steps(p["get"])
+    if "seq" in p:
+        return 1 + sum(_steps(q) for q in p["seq"])
     if "rep" in p:
         return 1 + _steps(p["rep"])
     return 1 + _steps(p["sel"])
@@ -501,6 +590,10 @@ def _spec_eval(p, tabs):
         return [r for t in tabs[:p["catall"]] for r in t]
     if "touch" in p:
         return _spec_eval(p["touch"], tabs)
+    if "get" in p:
+        return _spec_eval(p["get"], tabs)
+    if "seq" in p:
+        return None if _spec_eval(p["seq"][0], tabs) is None else _spec_eval(p["seq"][1], tabs)
     if "rep" in p:
         return _spec_eval(p["rep"], tabs)
     r = _spec_eval(p["sel"], tabs)
@@ -537,6 +630,10 @@ def _field_eval(p, c):
         return rows, union
     if "touch" in p:
         return _field_eval(p["touch"], c)
+    if "get" in p:
+        return _field_eval(p["get"], c)     # reading (caching) a column is not replacing it
+    if "seq" in p:
+        return None if _field_eval(p["seq"][0], c) is None else _field_eval(p["seq"][1], c)
     if "rep" in p:
         x = _field_eval(p["rep"], c)
         if x is None:
@@ -675,13 +772,30 @@ def _np_idx(ix):
     return np.array(ix["ints"], dtype=int)
 
 
+_LEAVES = {}
+
+
 def _run(p, paths, bt, bnp, scratch):
     if "t" in p:
-        f = bnp.open(paths[p["t"]], buffer_type=bt)
-        if "chunk" in p:
-            chunks = list(f.read_chunks(min_chunk_size=p["chunk"]))
-            return np.concatenate(chunks)
-        return f.read()
+        # every table is read ONCE per case: all uses of leaf k are the same Python object (a parent stays alive while its
+        # children are written, and is used again afterwards)
+        key = (p["t"], p.get("chunk"))
+        if key not in _LEAVES:
+            f = bnp.open(paths[p["t"]], buffer_type=bt)
+            if "chunk" in p:
+                _LEAVES[key] = np.concatenate(list(f.read_chunks(min_chunk_size=p["chunk"])))
+            else:
+                _LEAVES[key] = f.read()
+        return _LEAVES[key]
+    if "seq" in p:
+        _run(p["seq"][0], paths, bt, bnp, scratch)
+        return _run(p["seq"][1], paths, bt, bnp, scratch)
+    if "get" in p:
+        t = _run(p["get"], paths, bt, bnp, scratch)
+        names = FIELD_NAMES[_FMT_OF[id(paths)]]
+        for j in p["fs"]:
+            getattr(t, names[j])
+        return t
     if "cat" in p:
         return np.concatenate([_run(q, paths, bt, bnp, scratch) for q in p["cat"]])
     if "catall" in p:
@@ -722,6 +836,7 @@ def impl(c):
     from bionumpy.bnpdataclass import replace
     d, paths = _write_tables(c)
     _FMT_OF.clear()
+    _LEAVES.clear()
     _FMT_OF[id(paths)] = c["fmt"]
     try:
         bt = _buffer_type(c["fmt"])
@@ -782,6 +897,10 @@ def model_request(c):
             return {"catr": [0, p["catall"]]}
         if "touch" in p:
             return {"touch": tr(p["touch"])}
+        if "get" in p:
+            return tr(p["get"])         # reading a column only fills the lazy table's cache: no effect on the extractor
+        if "seq" in p:
+            return {"seq": [tr(q) for q in p["seq"]]}
         return {"sel": tr(p["sel"]), "ix": p["ix"]}
 
     prog = tr(c["prog"])
